@@ -6,6 +6,8 @@ From Coq Require Import List QArith Reals Qreals Lia Arith Bool.
 From NV Require Import Scalar.Ops Model.Common Model.Basis Model.KnotIns Model.InsertKnot Model.KnotRem
   Proofs.BasisR Proofs.KnotInsR Proofs.KnotRemR Proofs.KnotRemExact Proofs.KnotRemDir Run.Harness.
 From NV Require Import Model.KnotRefine Proofs.InsertKnotR Proofs.InsertDirR Proofs.InsertVolR Proofs.KnotRemGeneral Proofs.KnotRemGeneralDir Proofs.KnotRemGeneralVol Proofs.KnotRemRefine.
+From Coq Require Import ZArith.
+From NV Require Import Proofs.InsertOpSurf Proofs.KnotRemMultiDir.
 Import ListNotations.
 
 (* [G] knot vector: removing r times at the span reached after r insertions gives back the knot vector *)
@@ -426,3 +428,140 @@ Theorem C06_remove_after_refine_X1 : forall td (tol tol2 : R) p (U : list R) (P 
   knot_removal Rops td tol2 p V Q x 1 (s + 1) (a + 1) = P /\ knot_removal_kv V (a + 1) 1 = U.
 Proof. intros td tol tol2 p U P x dim s H1 H2 H3 H4 H5 H6 H7 H8 a H9 H10 H11. exact (remove_after_refine_one td tol tol2 p U P x dim s H1 H2 H3 H4 H5 H6 H7 H8 H9 H10 H11). Qed.
 Print Assumptions C06_remove_after_refine_X1.
+
+
+
+
+(* ====================== SEVERAL DIRECTIONS IN ONE CALL (Proofs/KnotRemMultiDir.v) ======================
+   "... removing it that many times in any direction of a curve, surface or volume": operations.insert_knot and
+   operations.remove_knot each process the directions u, v, w in this order inside ONE call, every direction on the result of
+   the previous one.  So after insert_knot(obj, [tu, tv, tw], [ru, rv, rw]) the u-removal of remove_knot(obj, [tu, tv, tw],
+   [ru, rv, rw]) works on a net that still contains the v- and w-insertions.  It still restores everything because insertions
+   in different parametric directions commute on control nets (KI_commute: a row operation and a column operation on a tensor
+   net commute, entry by entry, because helpers.knot_insertion is linear in the control points and natural in the point type).
+   Vocabulary of Proofs/InsertOpSurf.v: swf / vwf = valid surface / volume with points of dimension dim; par_ok = a requested
+   parameter lies in the half-open domain and the multiplicity tolerance does not confuse distinct knots; None or count 0 =
+   direction not requested. *)
+
+(* [G] the algebraic core: knot insertion along the first index of a doubly indexed family of points (degree pa, knots Ua,
+   parameter ta, count ra, multiplicity sa, span ka) and along the second index (pb, Ub, tb, rb, sb, kb) commute *)
+Theorem C06_insertions_in_two_directions_commute :
+  forall (pa : nat) (Ua : list R) (ta : R) (ra sa ka pb : nat) (Ub : list R) (tb : R) (rb sb kb na nb d : nat)
+         (F : nat -> nat -> list R),
+  (sa <= pa)%nat -> (pa <= ka)%nat -> (ka < na)%nat -> (ra <= pa - sa)%nat ->
+  (sb <= pb)%nat -> (pb <= kb)%nat -> (kb < nb)%nat -> (rb <= pb - sb)%nat ->
+  (forall i j, (i < na)%nat -> (j < nb)%nat -> length (F i j) = d) ->
+  forall i' j',
+  getp (knot_insertion Rops pb Ub
+          (map (fun j => getp (knot_insertion Rops pa Ua (map (fun i => F i j) (seq 0 na)) ta ra sa ka) i') (seq 0 nb)) tb rb sb kb) j'
+  = getp (knot_insertion Rops pa Ua
+          (map (fun i => getp (knot_insertion Rops pb Ub (map (fun j => F i j) (seq 0 nb)) tb rb sb kb) j') (seq 0 na)) ta ra sa ka) i'.
+Proof. exact KI_commute. Qed.
+Print Assumptions C06_insertions_in_two_directions_commute.
+
+(* [G] surfaces, control nets: u then v (the order of insert_knot) = v then u *)
+Theorem C06_surface_insertion_nets_commute : forall (g : @surf R) (tu : R) (ru s_u ku : nat) (tv : R) (rv s_v kv d : nat),
+  (s_u <= s_pu g)%nat -> (s_pu g <= ku)%nat -> (ku < s_su g)%nat -> (ru <= s_pu g - s_u)%nat ->
+  (s_v <= s_pv g)%nat -> (s_pv g <= kv)%nat -> (kv < s_sv g)%nat -> (rv <= s_pv g - s_v)%nat ->
+  (forall i, (i < s_sv g * s_su g)%nat -> length (getp (s_P g) i) = d) ->
+  surf_net_v Rops (surf_ins_u g tu s_u ku ru) tv rv s_v kv = surf_net_u Rops (surf_ins_v g tv s_v kv rv) tu ru s_u ku.
+Proof. exact surf_nets_commute. Qed.
+Print Assumptions C06_surface_insertion_nets_commute.
+
+(* [G] THE SURFACE STATEMENT: every accepted insert_knot(surf, [ou, ov], [nu, nv]) (any subset of directions, every degree, size,
+   multiplicity; the code's own span / multiplicity searches, also on the inserted knot vectors) followed by
+   remove_knot(surf', [ou, ov], [nu, nv]) does not raise and returns the ORIGINAL surface record: degrees, both knot vectors,
+   both sizes and the whole control net (tol = multiplicity tolerance, tol2 = squared removal tolerance, both >= 0) *)
+Theorem C06_surface_remove_after_insert_all_directions : forall (tol tol2 : R) (g : surf (T:=R)) (ou ov : option R) (nu nv dim : nat),
+  swf g dim -> length (s_P g) = (s_sv g * s_su g)%nat ->
+  par_ok tol (s_pu g) (s_Uu g) (s_su g) ou -> par_ok tol (s_pv g) (s_Uv g) (s_sv g) ov -> (0 <= tol)%R -> (0 <= tol2)%R ->
+  forall g2, insert_knot_surf Rops tol true g [ou; ov] [Z.of_nat nu; Z.of_nat nv] = (g2, false) ->
+  remove_knot_surf Rops tol tol2 true g2 [ou; ov] [Z.of_nat nu; Z.of_nat nv] = (g, false).
+Proof. exact insert_then_remove_surf_restores. Qed.
+Print Assumptions C06_surface_remove_after_insert_all_directions.
+
+(* [G] ... and in any case every surface point is unchanged, at all three stages *)
+Theorem C06_surface_remove_after_insert_points : forall (tol tol2 : R) (g : surf (T:=R)) (ou ov : option R) (nu nv dim : nat),
+  swf g dim -> length (s_P g) = (s_sv g * s_su g)%nat ->
+  par_ok tol (s_pu g) (s_Uu g) (s_su g) ou -> par_ok tol (s_pv g) (s_Uv g) (s_sv g) ov -> (0 <= tol)%R -> (0 <= tol2)%R ->
+  forall g2 g3 raised, insert_knot_surf Rops tol true g [ou; ov] [Z.of_nat nu; Z.of_nat nv] = (g2, false) ->
+  remove_knot_surf Rops tol tol2 true g2 [ou; ov] [Z.of_nat nu; Z.of_nat nv] = (g3, raised) ->
+  raised = false /\ g3 = g /\
+  s_su g2 = (s_su g + eff ou nu)%nat /\ s_sv g2 = (s_sv g + eff ov nv)%nat /\
+  forall c tu tv, (c < dim)%nat -> surf_pt g2 c tu tv = surf_pt g c tu tv /\ surf_pt g3 c tu tv = surf_pt g2 c tu tv.
+Proof. exact insert_then_remove_surf_points. Qed.
+Print Assumptions C06_surface_remove_after_insert_points.
+
+(* [G] volumes, control nets: the three pairs of directions commute *)
+Theorem C06_volume_insertion_nets_commute : forall (g : @vol R) (d : nat),
+  (forall i, (i < v_su g * v_sv g * v_sw g)%nat -> length (getp (v_P g) i) = d) ->
+  forall (tu : R) (ru s_u ku : nat) (tv : R) (rv s_v kv : nat) (tw : R) (rw s_w kw : nat),
+  ((s_u <= v_pu g)%nat -> (v_pu g <= ku)%nat -> (ku < v_su g)%nat -> (ru <= v_pu g - s_u)%nat ->
+   (s_v <= v_pv g)%nat -> (v_pv g <= kv)%nat -> (kv < v_sv g)%nat -> (rv <= v_pv g - s_v)%nat ->
+   vol_net_v Rops (vol_after_u g tu ru s_u ku) tv rv s_v kv = vol_net_u Rops (vol_after_v g tv rv s_v kv) tu ru s_u ku) /\
+  ((s_u <= v_pu g)%nat -> (v_pu g <= ku)%nat -> (ku < v_su g)%nat -> (ru <= v_pu g - s_u)%nat ->
+   (s_w <= v_pw g)%nat -> (v_pw g <= kw)%nat -> (kw < v_sw g)%nat -> (rw <= v_pw g - s_w)%nat -> (0 < v_sv g)%nat ->
+   vol_net_w Rops (vol_after_u g tu ru s_u ku) tw rw s_w kw = vol_net_u Rops (vol_after_w g tw rw s_w kw) tu ru s_u ku) /\
+  ((s_v <= v_pv g)%nat -> (v_pv g <= kv)%nat -> (kv < v_sv g)%nat -> (rv <= v_pv g - s_v)%nat ->
+   (s_w <= v_pw g)%nat -> (v_pw g <= kw)%nat -> (kw < v_sw g)%nat -> (rw <= v_pw g - s_w)%nat -> (0 < v_su g)%nat ->
+   vol_net_w Rops (vol_after_v g tv rv s_v kv) tw rw s_w kw = vol_net_v Rops (vol_after_w g tw rw s_w kw) tv rv s_v kv).
+Proof.
+  intros g d Hd tu ru s_u ku tv rv s_v kv tw rw s_w kw. split; [|split].
+  - exact (vol_nets_commute_uv g d Hd tu ru s_u ku tv rv s_v kv).
+  - exact (vol_nets_commute_uw g d Hd tu ru s_u ku tw rw s_w kw).
+  - exact (vol_nets_commute_vw g d Hd tv rv s_v kv tw rw s_w kw).
+Qed.
+Print Assumptions C06_volume_insertion_nets_commute.
+
+(* [G] THE VOLUME STATEMENT: accepted insert_knot(vol, [ou, ov, ow], [nu, nv, nw]) followed by remove_knot with the same
+   arguments does not raise and returns the ORIGINAL volume record (degrees, three knot vectors, three sizes, control net) *)
+Theorem C06_volume_remove_after_insert_all_directions :
+  forall (tol tol2 : R) (g : vol (T:=R)) (ou ov ow : option R) (nu nv nw dim : nat),
+  vwf g dim -> length (v_P g) = (v_su g * v_sv g * v_sw g)%nat ->
+  par_ok tol (v_pu g) (v_Uu g) (v_su g) ou -> par_ok tol (v_pv g) (v_Uv g) (v_sv g) ov ->
+  par_ok tol (v_pw g) (v_Uw g) (v_sw g) ow -> (0 <= tol)%R -> (0 <= tol2)%R ->
+  forall g3, insert_knot_vol Rops tol true g [ou; ov; ow] [Z.of_nat nu; Z.of_nat nv; Z.of_nat nw] = (g3, false) ->
+  remove_knot_vol Rops tol tol2 true g3 [ou; ov; ow] [Z.of_nat nu; Z.of_nat nv; Z.of_nat nw] = (g, false).
+Proof. exact insert_then_remove_vol_restores. Qed.
+Print Assumptions C06_volume_remove_after_insert_all_directions.
+
+Theorem C06_volume_remove_after_insert_points :
+  forall (tol tol2 : R) (g : vol (T:=R)) (ou ov ow : option R) (nu nv nw dim : nat),
+  vwf g dim -> length (v_P g) = (v_su g * v_sv g * v_sw g)%nat ->
+  par_ok tol (v_pu g) (v_Uu g) (v_su g) ou -> par_ok tol (v_pv g) (v_Uv g) (v_sv g) ov ->
+  par_ok tol (v_pw g) (v_Uw g) (v_sw g) ow -> (0 <= tol)%R -> (0 <= tol2)%R ->
+  forall g3 g4 raised, insert_knot_vol Rops tol true g [ou; ov; ow] [Z.of_nat nu; Z.of_nat nv; Z.of_nat nw] = (g3, false) ->
+  remove_knot_vol Rops tol tol2 true g3 [ou; ov; ow] [Z.of_nat nu; Z.of_nat nv; Z.of_nat nw] = (g4, raised) ->
+  raised = false /\ g4 = g /\
+  forall c tu tv tw, (c < dim)%nat -> vol_pt g3 c tu tv tw = vol_pt g c tu tv tw /\ vol_pt g4 c tu tv tw = vol_pt g3 c tu tv tw.
+Proof. exact insert_then_remove_vol_points. Qed.
+Print Assumptions C06_volume_remove_after_insert_points.
+
+(* ---- non-vacuity at the executable instance (exact rationals): a 3 x 4 biquadratic net, two knots at 1/3 in u (new) and one at
+        1/2 in v (already a knot: multiplicity 1 -> 2) in ONE insert call, removed in ONE remove call; a 3 x 2 x 3 volume of degrees
+        (2,1,2) with insertions in all three directions.  (exSm = exS of Props/C06.v; named differently so that this file compiles
+        on its own.) ---- *)
+Definition exSm : @surf Q :=
+  mkS 2 2 [0;0;0;1;1;1]%Q [0;0;0;1#2;1;1;1]%Q 3 4
+    [[0;0;0];[0;1;1];[0;2;0];[0;3;2]; [1;0;1];[1;1;3];[1;2;1];[1;3;0]; [2;0;0];[2;1;1];[2;2;2];[2;3;1]]%Q.
+Example C06_surface_two_directions_instance :
+  let r := insert_knot_surf Qops 0%Q true exSm [Some (1#3)%Q; Some (1#2)%Q] [2%Z; 1%Z] in
+  let r' := remove_knot_surf Qops 0%Q (1#1000000)%Q true (fst r) [Some (1#3)%Q; Some (1#2)%Q] [2%Z; 1%Z] in
+  snd r = false /\ s_su (fst r) = 5%nat /\ s_sv (fst r) = 5%nat /\
+  snd r' = false /\ s_su (fst r') = 3%nat /\ s_sv (fst r') = 4%nat /\
+  eqLQ (s_Uu (fst r')) (s_Uu exSm) = true /\ eqLQ (s_Uv (fst r')) (s_Uv exSm) = true /\
+  eqLLQ (s_P (fst r')) (s_P exSm) = true.
+Proof. cbv zeta. repeat split; vm_compute; congruence. Qed.
+
+Definition exVm : @vol Q :=
+  mkV 2 1 2 [0;0;0;1;1;1]%Q [0;0;1;1]%Q [0;0;0;1;1;1]%Q 3 2 3
+    [[0;0;0];[0;1;1];[1;0;2];[1;1;0];[2;0;1];[2;1;3]; [0;0;5];[0;1;4];[1;0;6];[1;1;7];[2;0;5];[2;1;4];
+     [0;0;9];[0;1;8];[1;0;9];[1;1;11];[2;0;10];[2;1;8]]%Q.
+Example C06_volume_three_directions_instance :
+  let r := insert_knot_vol Qops 0%Q true exVm [Some (1#3)%Q; Some (1#2)%Q; Some (1#4)%Q] [2%Z; 1%Z; 1%Z] in
+  let r' := remove_knot_vol Qops 0%Q (1#1000000)%Q true (fst r) [Some (1#3)%Q; Some (1#2)%Q; Some (1#4)%Q] [2%Z; 1%Z; 1%Z] in
+  snd r = false /\ v_su (fst r) = 5%nat /\ v_sv (fst r) = 3%nat /\ v_sw (fst r) = 4%nat /\
+  snd r' = false /\ v_su (fst r') = 3%nat /\ v_sv (fst r') = 2%nat /\ v_sw (fst r') = 3%nat /\
+  eqLQ (v_Uu (fst r')) (v_Uu exVm) = true /\ eqLQ (v_Uv (fst r')) (v_Uv exVm) = true /\ eqLQ (v_Uw (fst r')) (v_Uw exVm) = true /\
+  eqLLQ (v_P (fst r')) (v_P exVm) = true.
+Proof. cbv zeta. repeat split; vm_compute; congruence. Qed.
